@@ -177,6 +177,10 @@ def cfi_c3(twist):
     return out
 
 
+def k4():
+    return [e for i in range(4) for j in range(i + 1, 4) for e in und(i, j)]
+
+
 def rdflists(k, items):
     out, n = [], 0
     for _ in range(k):
@@ -223,6 +227,10 @@ FAMILIES = {
                                                                         r.random() < 0.5),
     "mixed-cycles": lambda r: (lambda bi, ns: disjoint(*[cycle(n, bi) for n in ns]))(
         r.random() < 0.5, r.choice([(3, 4), (3, 5), (4, 5), (3, 3, 4), (3, 4, 5), (2, 3), (2, 2, 3), (3, 6), (4, 4, 3)])),
+    # one colour class, several orbits: directed cycles of pairwise different lengths (1 = self-loop, 2 = 2-cycle)
+    "orbits": lambda r: disjoint(*[cycle(n) for n in r.sample([1, 2, 3, 4, 5], r.choice([3, 3, 4]))]),
+    "orbits-regular": lambda r: disjoint(*r.sample([k4(), prism(3), kmn(3, 3, True), cycle(3, True), cycle(4, True)],
+                                                   r.choice([2, 2, 3]))),
     "prism": lambda r: prism(r.choice([3, 3, 4, 4, 5])),
     "mobius": lambda r: mobius(r.choice([3, 4, 4, 5])),
     "petersen": lambda r: petersen(),
@@ -232,7 +240,7 @@ FAMILIES = {
     "sparse": random_sparse,
     "ground": lambda r: [[r.choice(GROUND[:3]), r.choice([P, Q]), r.choice(GROUND)] for _ in range(r.randint(0, 4))],
 }
-FAM_WEIGHTS = [("cycle", 12), ("cycle-big", 3), ("kmn", 9), ("copies", 10), ("mixed-cycles", 12), ("prism", 7), ("mobius", 6),
+FAM_WEIGHTS = [("cycle", 12), ("cycle-big", 3), ("kmn", 9), ("copies", 10), ("mixed-cycles", 10), ("orbits", 9), ("orbits-regular", 3), ("prism", 7), ("mobius", 6),
                ("petersen", 3), ("cfi", 4), ("lists", 6), ("stars", 7), ("sparse", 18), ("ground", 3)]
 TWINS = [
     ("c6|2c3", lambda: cycle(6, True), lambda: disjoint(cycle(3, True), cycle(3, True))),
@@ -412,14 +420,27 @@ def gen_case(rng, tier, i):
         return {"kind": "pair", "fam": name, "how": "twin", "g1": g1, "g2": g2, "map": None}
     fam = pick_family(rng)
     a = decorate(rng, FAMILIES[fam](rng))
+    if r < 0.32:
+        return gen_multi(rng, fam, a, rng.randint(4, 7))
     g1, lab1 = render(rng, a)
-    if rng.random() < 0.56:
+    if rng.random() < 0.5:
         g2, lab2 = render(rng, a)
         return {"kind": "pair", "fam": fam, "how": "relabel", "g1": g1, "g2": g2,
                 "map": {x: y for x, y in zip(lab1, lab2)}}
     b, how = mutate(rng, a)
     g2, _ = render(rng, b)
     return {"kind": "pair", "fam": fam, "how": "mutate-" + how, "g1": g1, "g2": g2, "map": None}
+
+
+def gen_multi(rng, fam, a, k):
+    """one abstract graph, k relabelled and shuffled copies: every copy must get the same digest / canonical graph"""
+    g0, lab0 = render(rng, a)
+    gs, maps = [g0], []
+    for _ in range(k):
+        g, lab = render(rng, a)
+        gs.append(g)
+        maps.append({x: y for x, y in zip(lab0, lab)})
+    return {"kind": "multi", "fam": fam, "gs": gs, "maps": maps}
 
 
 SK_LABELS = ["b%d", "N%dabcdef0123456789", "x.%d-y", "%d", "a:%d", "é%d", "_%d", "cb%d", "B_%d.z"]
@@ -533,6 +554,9 @@ def model_lines(case):
     if case["kind"] == "exh":
         g, partners, rel = exh_graphs(case)
         return [iso_line(g, h) for h in partners + rel]
+    if case["kind"] == "multi":
+        g0 = case["gs"][0]
+        return [iso_line(g0, g) if small(g0, g) else cert_line(g0, g, m) for g, m in zip(case["gs"][1:], case["maps"])]
     return []
 
 
@@ -541,6 +565,8 @@ def select_model_obs(case, out):
         return [out[0]] * 4 + ["diff " + out[1]] if out else []
     if case["kind"] == "skolem":
         return ["skolem-roundtrip-iso " + out[0]]
+    if case["kind"] == "multi":
+        return ["copy %d same-digest-and-canonical-graph %s" % (k + 1, o) for k, o in enumerate(out)]
     return ["hash-equal " + o for o in out]
 
 
@@ -641,7 +667,7 @@ def b2s(b):
 
 def run_impl(case):
     _rearm_wall()
-    return {"pair": run_pair, "skolem": run_skolem, "exh": run_exh}[case["kind"]](case)
+    return {"pair": run_pair, "skolem": run_skolem, "exh": run_exh, "multi": run_multi}[case["kind"]](case)
 
 
 def run_pair(case):
@@ -726,6 +752,52 @@ def run_pair(case):
         stats["symmetric"] = 1
     return {"obs": obs, "viol": viol, "nontrivial": nontrivial,
             "key": repr((case["fam"], case["how"], prof, len(s1), len(s2), truth)), "stats": stats}
+
+
+def run_multi(case):
+    gs = case["gs"]
+    viol, obs, stats = [], [], {"multi": 1, "multi_copies": len(gs) - 1, "fam_" + case["fam"]: 1}
+    graphs = [mk_graph(g) for g in gs]
+    res = []
+    for k, g in enumerate(graphs):
+        ok, r = call(viol, "graph_digest/to_canonical_graph", lambda: (to_isomorphic(g).graph_digest(), set(to_canonical_graph(g))))
+        if not ok:
+            return {"obs": [], "viol": viol, "nontrivial": True, "key": "abort", "stats": stats}
+        res.append(r)
+    s0 = set(graphs[0])
+    xlines, expect = [], []
+    for k in range(1, len(gs)):
+        truth = py_iso(s0, set(graphs[k]))
+        if not truth:
+            raise RuntimeError("generator error: relabelled copy is not isomorphic according to isoutil")
+        same_d, same_c = res[k][0] == res[0][0], res[k][1] == res[0][1]
+        if k == 1:
+            ok, r = call(viol, "isomorphic", isomorphic, graphs[0], graphs[1])
+            if ok and not r:
+                viol.append("false-negative: isomorphic returned False for a relabelled and shuffled copy")
+        if not same_d:
+            viol.append(f"false-negative: graph_digest of relabelled copy {k} differs (the digest depends on blank-node "
+                        f"labels or insertion order)")
+        if not same_c:
+            viol.append(f"canon-differs: to_canonical_graph of relabelled copy {k} is a different triple set")
+        obs.append("copy %d same-digest-and-canonical-graph %s" % (k, b2s(same_d and same_c)))
+        xlines.append(iso_line(gs[0], gs[k]) if small(gs[0], gs[k]) else cert_line(gs[0], gs[k], case["maps"][k - 1]))
+        expect.append(True)
+    got = drive(xlines)
+    stats["oracle_crosschecks"] = len(got)
+    if got != expect:
+        raise RuntimeError(f"ORACLE DISAGREEMENT (multi) isoutil={expect} lean={got} case={case}")
+    c1 = py_iso(res[0][1], s0)
+    if not c1:
+        viol.append("canon-not-iso: to_canonical_graph(g) is not isomorphic to g")
+    prof = profile(gs[0])
+    nontrivial = any(c > 1 for c in prof)
+    if nontrivial:
+        stats["symmetric"] = 1
+    nb = len(bn_of(gs[0]))
+    stats["bnodes_%s" % ("0" if nb == 0 else "1-4" if nb <= 4 else "5-8" if nb <= 8 else "9-12" if nb <= 12 else "13+")] = 1
+    return {"obs": obs, "viol": viol, "nontrivial": nontrivial,
+            "key": repr(("multi", case["fam"], prof, len(s0), len(gs))), "stats": stats}
 
 
 def run_skolem(case):
@@ -824,6 +896,18 @@ def shrink(case):
         if case["variant"] != "default":
             yield {**case, "variant": "default"}
         return
+    if case["kind"] == "multi":
+        gs, maps = case["gs"], case["maps"]
+        for k in range(1, len(gs)):
+            if len(gs) > 2:
+                yield {**case, "gs": gs[:k] + gs[k + 1:], "maps": maps[:k - 1] + maps[k:]}
+        for i in range(len(gs[0])):
+            new = [gs[0][:i] + gs[0][i + 1:]]
+            for g, m in zip(gs[1:], maps):
+                img = [m.get(x, x) for x in gs[0][i]]
+                new.append([t for t in g if t != img])
+            yield {**case, "gs": new}
+        return
     if case["kind"] != "pair":
         return
     g1, g2, mp = case["g1"], case["g2"], case.get("map")
@@ -861,4 +945,16 @@ def _m_langtag(case, result):
     return len({x.lower() for x in lits}) < len(lits) or len(lits) != len({T(x).n3() for x in lits})
 
 
-MATCHERS = {"genid_iri_in_input": _m_genid, "langtag_case": _m_langtag}
+def _m_traces(case, result):
+    """(fixed, C14-F2) relabelled copies of a graph whose blank nodes form one colour class with >= 3 orbits get
+    different digests"""
+    if case.get("kind") not in ("multi", "pair") or not result["viol"]:
+        return False
+    if any(v.split(":")[0] not in ("false-negative", "canon-differs") for v in result["viol"]):
+        return False
+    g = case["gs"][0] if case["kind"] == "multi" else case["g1"]
+    prof = profile(g)
+    return bool(prof) and prof[0] >= 6
+
+
+MATCHERS = {"genid_iri_in_input": _m_genid, "langtag_case": _m_langtag, "traces_unverified_generator": _m_traces}
